@@ -36,8 +36,13 @@ ASSUMPTIONS = [
     "difficulty name: the target's difficulty-name attribute must CONTAIN the source's difficulty name (converters add prefixes such as "
     "'Level '; StepMania targets receive it in `description` because `difficulty` is an enumeration; StepMania sources give `difficulty`)",
     "BMS has no creator attribute: converters from / to BMS are not asked to carry one (encoded in src_role / tgt_role of Converters.v)",
-    "values not modelled are taken from the implementation's own output (oracle argument of conv_run): the key-count derived attributes "
-    "(circle_size, mode, chart_type), StepMania's offset in QuaToSM, BMSToOsu's hitsound_file column; the property does not speak of them",
+    "values not modelled are taken from the implementation's own output (oracle argument of conv_run): only what BMS sources derive from "
+    "`bms.stack().column.max() + 1` (circle_size / mode / chart_type of BMSToOsu / BMSToQua / BMSToSM) and BMSToOsu's decoded "
+    "hitsound_file column; the property does not speak of them.  Everything else is modelled, incl. the key-count functions "
+    "(SMMapChartTypes.get_type / get_keys, QuaMapMode.get_mode / get_keys: tables read off the functions' own source, fail-closed to "
+    "opaque when a function is not an `if x == k: return v ... else: return d` chain), class constants, `a or b`, `a if c else b`, "
+    "len(list), list.first_offset() (StepMania offset = first tempo point), local variables, target class defaults",
+    "metadata numbers are compared by value (numpy / Python int vs float are not distinguished)",
     "a list of charts, a list of one-chart StepMania mapsets and one merged mapset are all compared as the sequence of their charts; "
     "O2JMapSet.level_name is modelled as level[position of the chart] (charts of a mapset are distinct objects)",
     "values are dyadic rationals so that rate changes in the history are exact",
@@ -62,7 +67,7 @@ MANIFEST = dict(
          "generated description, the recorded cast mapping is re-run, and the content oracle is evaluated on every produced chart.",
     note="Trusted: Coq kernel+VM; the AST translator harness/tables/convert.py (fail-closed, output checked by correspondence); harness "
          "(chart construction, cast recorder, snapshots, serialisation); shift_jis/unidecode oracles (ASCII only); role tables of "
-         "Converters.v. Key-count derived attributes and computed columns come from the implementation (oracle) - outside the property.",
+         "Converters.v. Only the BMS-source key count (stack().column.max()+1) and BMSToOsu's decoded hitsound_file column come from the implementation (oracle) - outside the property; the key-count tables are read off the source of get_type/get_keys/get_mode.",
     technique="Coq proof over translated converter descriptions (fail-closed AST translator + vm_compute obligation on the live tree) + "
               "cast exactness + vm_compute correspondence of whole conversions + content oracle per converter",
     design="4/C08")
@@ -97,7 +102,11 @@ def generate(rng, tier):
             hist = [rng.choice(HIST) for _ in range(rng.choice([0, 1, 1, 2]))]
             meta = {"title": rng.choice(WORDS[:5]), "artist": rng.choice(WORDS[:4]), "creator": rng.choice(WORDS[5:7]),
                     "diff": [rng.choice(["Hard", "Insane 7K", "Easy"]) for _ in range(nmaps)],
-                    "level": [rng.randint(1, 40) for _ in range(3)]}
+                    "level": [rng.randint(1, 40) for _ in range(3)],
+                    # key counts (with and without a StepMania / Quaver name) and chart types (with and without a key count)
+                    "keys": rng.choice([4, 7, 4, 7, 5, 8, 6]),
+                    "chart_type": [rng.choice(["dance-single", "kb7-single", "dance-solo"]
+                                              + (["pump-single"] if conv == "SMToOsu" else [])) for _ in range(nmaps)]}
             cases.append({"conv": conv, "maps": maps, "hist": hist, "hseed": rng.randint(0, 10 ** 6), "meta": meta,
                           "shift": rng.choice([0, 1, 1, 2]) if conv in ("O2JToBMS", "OsuToBMS", "QuaToBMS") else 0})
     return cases
@@ -132,14 +141,20 @@ def _apply_history(m, hist, seed):
 def _set_meta(game, container, m, meta, k):
     if game == "osu":
         m.title, m.artist, m.creator, m.version = meta["title"], meta["artist"], meta["creator"], meta["diff"][k]
+        m.circle_size = meta.get("keys", m.circle_size)
     elif game == "qua":
         m.title, m.artist, m.creator, m.difficulty_name = meta["title"], meta["artist"], meta["creator"], meta["diff"][k]
+        if "keys" in meta:
+            from reamber.quaver.QuaMapMeta import QuaMapMode
+            m.mode = QuaMapMode.get_mode(meta["keys"])
     elif game == "bms":
         m.title, m.artist, m.version = meta["title"].encode("shift_jis"), meta["artist"].encode("shift_jis"), meta["diff"][k].encode("shift_jis")
     elif game == "sm":
         container.title, container.artist, container.credit = meta["title"], meta["artist"], meta["creator"]
         m.difficulty = meta["diff"][k].split(" ")[0]
         m.description = meta["diff"][k]
+        if "chart_type" in meta:
+            m.chart_type = meta["chart_type"][k]
     elif game == "o2j":
         container.title, container.artist, container.creator = meta["title"], meta["artist"], meta["creator"]
         container.level = list(meta["level"])
